@@ -489,6 +489,11 @@ func init() {
 					fixDelivery(&s, r)
 				}
 			}
+			if c.Idx%7 == 4 {
+				// free-form subtypes (key=value, words, punctuation)
+				s = oddSubs(s)
+				res.obs("cases_with_free_form_subtypes", 1)
+			}
 			res.Key = s.Key()
 			if usesExotic(s) {
 				res.obs("cases_over_exotic_types", 1)
@@ -509,6 +514,8 @@ func init() {
 				}
 			}
 			outs, _ := runScenarioX(c, s, r, reps, &res, func(in *Inst) {
+				// one case in five hands the inputs over as ValueSet.Args()
+				in.ViaSet = c.Idx%5 == 3
 				if !warm {
 					return
 				}
